@@ -263,6 +263,13 @@ def run(ctx):
     from .c10 import check_process_send_queue
 
     report.share(ctx, "C20.T3", check_process_send_queue)
+    # "any message timing": a frame that arrives in pieces is read as soon as, and only when, its last byte is there
+    # (C09.W1), and every block that was queued while the dispatcher was busy is still handled (dispatcher group)
+    from ._dispatch import check_dispatcher
+    from .c09 import check_bytequeue_wait
+
+    check_bytequeue_wait(ctx, "C20.T3")
+    check_dispatcher(ctx, "C20.T3", wakeups=True, consumers=True, reconnect=True)
     # "reach communication again after disable/enable": the select handshake answers before it changes state (C05.P1)
     from .c05 import check_control
 
